@@ -29,7 +29,8 @@ CONSTANTS
     Dev           \* set of named deviations from the design
 
 DevNames == {"absFinalClamp", "dirFromSystemSpan", "keepRolledBackPiece", "frontInsert", "dedupByPosition",
-             "noTrimOnFailure", "resetKeepsEvents", "commitBeforeAccept", "clampAdoptsDt", "recordStepTooShort", "perCallSuppression"}
+             "noTrimOnFailure", "resetKeepsEvents", "commitBeforeAccept", "clampAdoptsDt", "recordStepTooShort", "perCallSuppression",
+             "bisectAfterTurn"}
 ASSUME Dev \subseteq DevNames
 
 Abs(x) == IF x < 0 THEN -x ELSE x
@@ -291,6 +292,24 @@ PiecesAreSteps ==
     (DENSE /\ (Idle \/ Top.pc = "loop"))
         => /\ Len(sol) = Len(rows) - 1
            /\ \A i \in 1..Len(sol) : sol[i] = [a |-> rows[i], b |-> rows[i + 1]]
+
+(* C06: a dense query is answered by a step that contains it.  The lookup is the container's (DenseModel.tla: the transcribed       *)
+(* bisections of the scalar and the array path, and - once calls have run in both directions, so that the end times are no longer      *)
+(* ordered - the most recent piece containing the query); queries are in half ticks so that the middle of a step is one.  Deviation     *)
+(* "bisectAfterTurn" is the lookup before repair 654424a.                                                                               *)
+DM == INSTANCE DenseModel WITH Dev <- (Dev \cap {"bisectAfterTurn"})
+AsContainer(pcs) == [has |-> Len(pcs) > 0, ts |-> [i \in 1..Len(pcs) |-> 2 * pcs[i].b],
+                     ps |-> [i \in 1..Len(pcs) |-> [a |-> 2 * pcs[i].a, b |-> 2 * pcs[i].b, id |-> i]],
+                     start |-> IF Len(pcs) > 0 THEN 2 * pcs[1].a ELSE 0, cache |-> << >>, cacheNone |-> TRUE, stale |-> TRUE, nid |-> Len(pcs) + 1]
+AnswerIdx(pcs, q2, vec) == DM!Lookup(AsContainer(pcs), q2, vec)[2].val
+Lo2(pcs) == 2 * DM!SeqMin([i \in 1..(2 * Len(pcs)) |-> IF i <= Len(pcs) THEN pcs[i].a ELSE pcs[i - Len(pcs)].b])
+Hi2(pcs) == 2 * DM!SeqMax([i \in 1..(2 * Len(pcs)) |-> IF i <= Len(pcs) THEN pcs[i].a ELSE pcs[i - Len(pcs)].b])
+QueriesAnsweredByContainingStep ==
+    (DENSE /\ Idle /\ Len(sol) > 0)
+        => \A q2 \in Lo2(sol)..Hi2(sol) : \A vec \in BOOLEAN :
+              LET p == sol[AnswerIdx(sol, q2, vec)] IN Between(2 * p.a, q2, 2 * p.b)
+ScalarAndArrayQueriesAgree ==
+    (DENSE /\ Idle /\ Len(sol) > 0) => \A q2 \in Lo2(sol)..Hi2(sol) : AnswerIdx(sol, q2, TRUE) = AnswerIdx(sol, q2, FALSE)
 
 (* C07 *)
 EventsAreRoots == \A k \in 1..Len(events) : \E r \in ROOTS : r.t = events[k].t /\ r.ev = events[k].ev
